@@ -63,7 +63,7 @@ NONE == 999999
 \* k: "CR" confirmed request, "CA" complex ack, "SA" simple ack, "ERR" error/reject, "ACK" segment ack, "ABT" abort
 F(k, dir, srv, seg, mor, seq, win, nak, tok) ==
    [k |-> k, dir |-> dir, srv |-> srv, seg |-> seg, mor |-> mor, seq |-> seq, win |-> win, nak |-> nak,
-    tok |-> tok, at |-> now]
+    tok |-> tok, at |-> now, late |-> FALSE]
 
 ReqSeg(i, w)  == F("CR", "cs", FALSE, NQ > 1, i < NQ - 1, IF NQ > 1 THEN i % SeqMod ELSE 0, IF NQ > 1 THEN w ELSE 0, FALSE, i)
 RespSeg(i, w) == F("CA", "sc", TRUE, NR > 1, i < NR - 1, IF NR > 1 THEN i % SeqMod ELSE 0, IF NR > 1 THEN w ELSE 0, FALSE, i)
@@ -310,8 +310,10 @@ C_timeout ==
 \* ---- medium: per-direction FIFO; Drop / Dup / Delay are counted faults -------------
 RemoveAt(q, i) == SubSeq(q, 1, i - 1) \o SubSeq(q, i + 1, Len(q))
 InsertAfter(q, i, e) == SubSeq(q, 1, i) \o <<e>> \o SubSeq(q, i + 1, Len(q))
+\* frames of one direction arrive in the order sent -- except a frame the medium held back (Delay): once it is due it is
+\* a straggler that neither waits for the frames sent before it nor keeps back the ones sent after it (reordering)
 DeliverableAt(i) == /\ net[i].at <= now
-                    /\ \A j \in 1..(i - 1) : net[j].dir = net[i].dir => net[j].at > now
+                    /\ (net[i].late \/ \A j \in 1..(i - 1) : (net[j].dir = net[i].dir /\ ~net[j].late) => net[j].at > now)
 AnyDeliverable == \E i \in 1..Len(net) : net[i].at <= now
 
 Deliver(i) ==
@@ -331,7 +333,7 @@ Dup(i)  == /\ nDup < MaxDup /\ DeliverableAt(i)
            /\ net' = InsertAfter(net, i, net[i]) /\ nDup' = nDup + 1 /\ act' = [n |-> "Dup", i |-> i]
            /\ Quiet /\ UNCHANGED <<now, nDrop, nDelay, nShrink>>
 Delay(i) == /\ nDelay < MaxDelay /\ DeliverableAt(i) /\ net[i].at = now
-            /\ net' = [net EXCEPT ![i].at = now + DelayBy]
+            /\ net' = [net EXCEPT ![i].at = now + DelayBy, ![i].late = TRUE]
             /\ nDelay' = nDelay + 1 /\ act' = [n |-> "Delay", i |-> i]
             /\ Quiet /\ UNCHANGED <<now, nDrop, nDup, nShrink>>
 
